@@ -15,6 +15,10 @@ import (
 	"simrt"
 )
 
+// freeRunning: the race-detector companion runs the same workloads without activating the
+// controller (all simrt entry points pass through), so goroutines run under the real Go scheduler.
+var freeRunning = os.Getenv("VFREE") != ""
+
 // theT is the *testing.T of the one test function of the binary; synctest.Test needs it.
 var theT *testing.T
 
@@ -145,7 +149,9 @@ func simulate(o SimOpts, body func(s *simrt.Sim)) *SimOut {
 		if o.States {
 			s.StateHashes = map[uint64]struct{}{}
 		}
-		s.Activate()
+		if !freeRunning {
+			s.Activate()
+		}
 		body(s)
 		if s.Err == nil {
 			s.Run() // final drain to quiescence
